@@ -11,7 +11,8 @@
 From Coq Require Import String Ascii.
 From Cel.Model Require Import Parser Position.
 From Cel.Model Require Import Grammar.
-From Cel.Proofs Require Import ParserProofs ParserTotal ParserSound GrammarProps.
+From Cel.Model Require Import Surface.
+From Cel.Proofs Require Import ParserProofs ParserTotal ParserSound GrammarProps ParserFuel.
 
 (** The fuel [compile] gives its parser (16 * (tokens + 2)) is enough for every token list
     and every source text: the out-of-fuel answer never occurs. *)
@@ -45,6 +46,12 @@ Proof.
   destruct (derivable_shape ts G) as (B & E & N). repeat split; try assumption; try apply B.
   now apply derivable_nested.
 Qed.
+
+(** The relation is inhabited by everything C04's round trip covers: the minimal-parenthesis
+    rendering of every well-formed surface tree is derivable (operators of all levels, prefix
+    runs, conditionals, selections, indexing, calls, list and map literals, literals). *)
+Theorem C01_trees_derivable : forall t, wf_st t -> Gstart (raw t).
+Proof. intros t W. exact (parse_sound (raw t) (ast t) (parse_tokens_roundtrip t W)). Qed.
 
 (** The position computed for a byte offset (SourceInfo::pos_for, used for macro errors)
     exists for every offset inside the source and never points beyond it: the line is an
@@ -93,6 +100,7 @@ Print Assumptions C01_fuel_sufficient.
 Print Assumptions C01_total.
 Print Assumptions C01_accept_sound.
 Print Assumptions C01_accepted_shape.
+Print Assumptions C01_trees_derivable.
 Print Assumptions C01_pos_in_source.
 Print Assumptions C01_unknown_char_rejected.
 Print Assumptions C01_unterminated_literal_rejected.
